@@ -234,6 +234,10 @@ def run_job(job):
                 "sensor": {k: {r: {c: export(sympy.diff(to_sympy(e, syms), syms[c])) for c in defn["state"]}
                                for r, e in rd.items()} for k, rd in defn["sensors"].items()},
             }
+    ekf_s = None
+    if "ekf_state" in want:
+        ekf_s = ekf if ekf is not None else python.compile_ekf(model, pn, sensors, sn, cm, config=cfg)
+    returned = []       # (object, values at the time it was returned): results must not change afterwards
     pts = []
     for p in job["points"]:
         env = {syms[defn["dt"]]: sympy.Rational(Fraction(p["dt"]).numerator, Fraction(p["dt"]).denominator)}
@@ -247,10 +251,19 @@ def run_job(job):
         try:
             nxt = pm.model(float(p["dt"]), state, control)
             r["model"] = {str(n): float(v) for n, v in zip(pm.arglist_state, nxt.data[:, 0])}
+            returned.append((nxt, nxt.data.copy()))
         except Exception as e:  # noqa
             r["model"] = {"_raised": type(e).__name__ + ": " + str(e)[:200]}
         r["oracle_model"] = {s: (None if p.get("branch_cut") else exact(to_sympy(e, syms), env)) for s, e in defn["state_model"].items()}
         r["branch_cut"] = bool(p.get("branch_cut"))
+        if ekf_s is not None:
+            try:
+                import numpy as _np
+                es = ekf_s.process_model(float(p["dt"]), ekf_s.State(**p["state"]), ekf_s.Covariance(), ekf_s.Control(**p["control"]))
+                r["ekf_state"] = {str(n): float(v) for n, v in zip(ekf_s.arglist_state, es.state.data[:, 0])}
+                returned.append((es.state, es.state.data.copy()))
+            except Exception as e:  # noqa
+                r["ekf_state"] = {"_raised": type(e).__name__ + ": " + str(e)[:200]}
         if ekf is not None:
             est = ekf.State(**p["state"])
             ectl = ekf.Control(**p["control"])
@@ -278,6 +291,8 @@ def run_job(job):
                                      for rd, e in rdd.items()} for k, rdd in defn["sensors"].items()}
         pts.append(r)
     out["points"] = pts
+    import numpy as _np
+    out["results_stable"] = bool(all(_np.array_equal(o.data, v, equal_nan=True) for o, v in returned))
     return out
 
 
